@@ -25,37 +25,50 @@ DIMS = {
     "scheme": ["ws", "wss"],
     "host": ["example.com", "::1", "10.0.0.1"],
     "port": [80, 443, 8080],
-    "opt_host": [None, "virtual.example:9"],
+    # "absent" = key not in options; None / "" = passed explicitly with a falsy value (what WebSocketApp does for every option)
+    "opt_host": ["absent", "virtual.example:9", None, ""],
     "origin": ["absent", None, "https://app.example"],
     "suppress_origin": [False, True],
-    "subprotocols": [None, ["chat", "v2"]],
+    "subprotocols": ["absent", ["chat", "v2"], None],
     "header": ["absent", "list", "dict", "dict-key-version", "dict-none-value", "empty-list"],
-    "connection": [None, "keep-alive, Upgrade"],
-    "cookie": ["absent", None, "c=1"],
-    "jar": ["", "s=2"],
+    "connection": ["absent", "keep-alive, Upgrade", None],
+    "cookie": ["absent", None, "c=1", "sid=1"],
+    "jar": ["", "s=2", "sid=10"],
 }
+# values added after the first full-product design; the thorough tier takes the full product of the others
+EXTENDED = {"opt_host": [None, ""], "subprotocols": [None], "connection": [None], "cookie": ["sid=1"], "jar": ["sid=10"]}
 DEFAULT = {k: v[0] for k, v in DIMS.items()}
+
+
+def _variations(keys, order):
+    """Every class that differs from the default in at most `order` dimensions."""
+    seen = set()
+    for ks in itertools.chain.from_iterable(itertools.combinations(keys, r) for r in range(0, order + 1)):
+        for vs in itertools.product(*[DIMS[k] for k in ks]):
+            d = dict(DEFAULT)
+            d.update(zip(ks, vs))
+            sig = repr(sorted(d.items(), key=lambda x: x[0]))
+            if sig not in seen:
+                seen.add(sig)
+                yield d
 
 
 def _classes(tier):
     keys = list(DIMS)
     if tier == "thorough":
-        for combo in itertools.product(*[DIMS[k] for k in keys]):
-            yield dict(zip(keys, combo))
+        seen = set()
+        base = {k: [v for v in DIMS[k] if v not in EXTENDED.get(k, [])] for k in keys}
+        for combo in itertools.product(*[base[k] for k in keys]):
+            d = dict(zip(keys, combo))
+            seen.add(repr(sorted(d.items(), key=lambda x: x[0])))
+            yield d
+        for d in _variations(keys, 3):
+            sig = repr(sorted(d.items(), key=lambda x: x[0]))
+            if sig not in seen:
+                seen.add(sig)
+                yield d
         return
-    seen = set()
-    for i, ki in enumerate(keys):
-        for vi in DIMS[ki]:
-            for kj in keys[i:]:
-                for vj in DIMS[kj]:
-                    d = dict(DEFAULT)
-                    d[ki] = vi
-                    if kj != ki:
-                        d[kj] = vj
-                    sig = repr(sorted(d.items(), key=lambda x: x[0]))
-                    if sig not in seen:
-                        seen.add(sig)
-                        yield d
+    yield from _variations(keys, 2)
 
 
 def _expected(c):
@@ -63,7 +76,7 @@ def _expected(c):
     hp = f"[{host}]" if ":" in host else host
     hostport = hp if port in (80, 443) else f"{hp}:{port}"
     lines = ["GET {<resource>} HTTP/1.1", "Upgrade: websocket"]
-    lines.append(f"Host: {c['opt_host']}" if c["opt_host"] else f"Host: {hostport}")
+    lines.append(f"Host: {c['opt_host']}" if c["opt_host"] not in ("absent", None, "") else f"Host: {hostport}")
     if not c["suppress_origin"]:
         if c["origin"] not in ("absent", None):
             lines.append(f"Origin: {c['origin']}")
@@ -73,8 +86,8 @@ def _expected(c):
     if hdr != "dict-key-version":
         lines.append("Sec-WebSocket-Key: {<key>}")
         lines.append("Sec-WebSocket-Version: 13")
-    lines.append(f"Connection: {c['connection']}" if c["connection"] else "Connection: Upgrade")
-    if c["subprotocols"]:
+    lines.append(f"Connection: {c['connection']}" if c["connection"] not in ("absent", None) else "Connection: Upgrade")
+    if c["subprotocols"] not in ("absent", None):
         lines.append("Sec-WebSocket-Protocol: " + ",".join(c["subprotocols"]))
     if hdr == "list":
         lines += ["User-Agent: x", "X-Custom: 1"]
@@ -94,14 +107,14 @@ def _expected(c):
 
 def _options(run, c):
     o = {}
-    if c["opt_host"]:
-        o["host"] = C(c["opt_host"])
+    if c["opt_host"] != "absent":
+        o["host"] = NONE if c["opt_host"] is None else C(c["opt_host"])
     if c["origin"] != "absent":
         o["origin"] = NONE if c["origin"] is None else C(c["origin"])
     if c["suppress_origin"]:
         o["suppress_origin"] = TRUE
-    if c["subprotocols"]:
-        o["subprotocols"] = new_list(run, [C(x) for x in c["subprotocols"]])
+    if c["subprotocols"] != "absent":
+        o["subprotocols"] = NONE if c["subprotocols"] is None else new_list(run, [C(x) for x in c["subprotocols"]])
     h = c["header"]
     if h == "list":
         o["header"] = new_list(run, [C("User-Agent: x"), C("X-Custom: 1")])
@@ -113,20 +126,30 @@ def _options(run, c):
         o["header"] = new_dict(run, {"Sec-WebSocket-Key": Sym("callerkey", "str"), "Sec-WebSocket-Version": C("13"), "X-Custom": C("1")}, False, "hdr")
     elif h == "dict-none-value":
         o["header"] = new_dict(run, {"User-Agent": C("x"), "X-Skip": NONE}, False, "hdr")
-    if c["connection"]:
-        o["connection"] = C(c["connection"])
+    if c["connection"] != "absent":
+        o["connection"] = NONE if c["connection"] is None else C(c["connection"])
     if c["cookie"] != "absent":
         o["cookie"] = NONE if c["cookie"] is None else C(c["cookie"])
     return new_dict(run, o, False, "options")
 
 
+def cookie_classes():
+    """The option classes that matter for the Cookie line (C20): jar x caller cookie x the options that share code with it."""
+    seen = set()
+    for d in _variations(["cookie", "jar", "opt_host", "origin", "header"], 3):
+        sig = repr(sorted(d.items(), key=lambda x: x[0]))
+        if sig not in seen:
+            seen.add(sig)
+            yield d
+
+
 @rule("R-C10-1", min_instances=100, title="request header lines over the option grid equal the reference request")
-def r1(ctx):
+def r1(ctx, classes=None):
     idx = ctx.index
     loc = idx.loc(idx.func(Q).node)
     fails = {}
     n = 0
-    for c in _classes(ctx.tier):
+    for c in (classes if classes is not None else _classes(ctx.tier)):
         stubs = {"_cookiejar:SimpleCookieJar.get": lambda I, run, a, k, nd, c=c: C(c["jar"]),
                  "_handshake:_create_sec_websocket_key": lambda I, run, a, k, nd: (run.effect("newkey", ()), Sym("key", "str"))[1]}
         I = Interp(idx, Config(stubs=stubs))
